@@ -74,6 +74,9 @@ pub struct Program {
     pub fail_leaf: Vec<u32>,
     /// wrap everything after the definitions in `while true` (C13 only; the model cannot run these)
     pub forever: bool,
+    /// render with CRLF line endings
+    #[serde(default)]
+    pub crlf: bool,
 }
 
 // ------------------------------------------------------------------ rendering
@@ -216,8 +219,9 @@ pub fn render(p: &Program) -> String {
         render_block(&p.main, 0, &mut out);
     }
     let _ = RETURN_SP;
-    let mut text = out.join("\n");
-    text.push('\n');
+    let eol = if p.crlf { "\r\n" } else { "\n" };
+    let mut text = out.join(eol);
+    text.push_str(eol);
     text
 }
 
@@ -938,6 +942,8 @@ struct G<'r> {
     /// "big" mode (one program in twenty): ONE dimension goes beyond the usual small pools
     /// (1 long values, 2 nesting depth, 3 branch count, 4 array length, 5 argument count, 6 loop iterations)
     big: u8,
+    /// every function was generated with zero parameters (no body reads ${1}...)
+    no_params_read: bool,
     rng: &'r mut Rng,
     opts: GenOpts,
     n_cnd: usize,
@@ -1050,7 +1056,11 @@ impl<'r> G<'r> {
                 if self.opts.functions && self.n_fns > 0 && ctx.in_fn.is_none() && self.rng.chance(1, 2) {
                     let f = self.rng.usize(self.n_fns);
                     let n = self.rng.usize(3);
-                    Cond::Call { f: format!("f{}", f), args: (0..n).map(|_| self.tpl(ctx)).collect() }
+                    // (argument values spelled like the condition keywords are still just argument values)
+                    // only when no function body reads its parameters: such a value must never reach a condition,
+                    // where it would be a keyword (C06's ground), not a value
+                    let kw_ok = self.no_params_read;
+                    Cond::Call { f: format!("f{}", f), args: (0..n.max(if kw_ok { 1 } else { 0 })).map(|k| if kw_ok && k == 0 && self.rng.chance(1, 2) { self.rng.pick(&["and", "or"]).to_string() } else { self.tpl(ctx) }).collect() }
                 } else {
                     Cond::Cnd { site: self.new_cnd(3), negate: false }
                 }
@@ -1210,11 +1220,14 @@ pub fn generate_program(rng: &mut Rng, opts: &GenOpts) -> Program {
             (0..n).map(|_| rng.pick(&["a", "b", "c", "d d", ""]).to_string()).filter(|s| !s.is_empty()).collect()
         })
         .collect();
-    let mut g = G { big, rng, opts: opts.clone(), n_cnd: 0, n_for: 0, budget: size, n_fns, n_arrays, w };
+    let mut g = G { big, no_params_read: true, rng, opts: opts.clone(), n_cnd: 0, n_for: 0, budget: size, n_fns, n_arrays, w };
     let mut fns = vec![];
     for k in 0..n_fns {
         let scoped = g.rng.chance(1, 3);
         let n_params = if g.big == 5 && g.rng.chance(1, 2) { 10 + g.rng.usize(3) } else { g.rng.usize(3) };
+        if n_params > 0 {
+            g.no_params_read = false;
+        }
         let ctx = Ctx { depth: 1, in_fn: Some(k), scoped, n_params, loop_vars: vec![], in_for: false, calls_ok: false };
         g.budget = (size / 2).max(3);
         let mut body = g.block(&ctx, 5);
@@ -1257,7 +1270,8 @@ pub fn generate_program(rng: &mut Rng, opts: &GenOpts) -> Program {
     if opts.avoid_fullname_else {
         // nothing to do here: the renderer consults AVOID_FULLNAME_ELSE through `sp` re-rolls below
     }
-    let mut p = Program { fns, arrays, main, cnd, fail_leaf, forever: opts.looping };
+    let crlf = g.rng.chance(1, 12);
+    let mut p = Program { fns, arrays, main, cnd, fail_leaf, forever: opts.looping, crlf };
     if opts.lib_calls && g.rng.chance(1, 3) {
         let n_arrays = p.arrays.len();
         plant_lib_calls(&mut p.main, g.rng, n_arrays, false);
